@@ -62,4 +62,11 @@ let handle (toks : string list) : string =
       (* the unfiltered COUNT shortcut with CURSOR and LIMIT: <SCAN COUNT> <SEARCH COUNT> *)
       let cur = n_of_int (int_of_string cursor) and lim = n_of_int (int_of_string limit) in
       Printf.sprintf "%d %d" (int_of_n (coll_scan_count_at !st cur lim)) (int_of_n (coll_search_count_at !st cur lim))
+  | ["set_bounds"; a; b; c; d] ->
+      (* Model/SetBounds.set_bounds_rect on the four parsed numbers of SET ... BOUNDS (IEEE bits):
+         -> bits of minx miny maxx maxy, ordered? *)
+      let f x = f64_of_bits (z_of_string x) in
+      let r = set_bounds_rect (f a) (f b) (f c) (f d) in
+      Printf.sprintf "%s %s %s %s %s" (string_of_z (bits_of_f64 r.r64_minx)) (string_of_z (bits_of_f64 r.r64_miny))
+        (string_of_z (bits_of_f64 r.r64_maxx)) (string_of_z (bits_of_f64 r.r64_maxy)) (bool_str (rect_ordered r))
   | _ -> "?unknown"
